@@ -82,8 +82,10 @@ def finish(ctx, level, explanation, t0, quiet=False, write=True, extra_cov=None)
     counts = {}
     for o in ctx.obs:
         counts[o.rule] = counts.get(o.rule, 0) + 1
+    refuted_rules = {o.rule for o in ctx.obs if o.status == 'refuted'}
     for rid, floor in ctx.floors.items():
-        if counts.get(rid, 0) < floor:
+        # a rule that stopped at a refutation is not vacuous; the floor guards against rules that silently match nothing
+        if counts.get(rid, 0) < floor and rid not in refuted_rules:
             raise AnalysisError(f'rule {rid} matched {counts.get(rid, 0)} instances, floor is {floor} '
                                 f'(a rule that matches nothing passes vacuously)')
     und = [o for o in ctx.obs if o.status == 'undetermined']
@@ -145,7 +147,7 @@ def finish(ctx, level, explanation, t0, quiet=False, write=True, extra_cov=None)
         'rule': 'one evaluation = one proof obligation generated from /repo source by a rule instance '
                 '(table row, call site, path, function); distinct = distinct (rule, structural key) pairs',
         'obligations': n_ob,
-        'discharged': n_dis + (len(kf) if level != 'proof' else 0) if False else n_dis,
+        'discharged': n_dis,
         'samples': samples,
         'rules': per_rule,
         'accepted_sites': [o.as_dict() for o in ctx.obs if o.status == 'accepted'],
